@@ -297,7 +297,7 @@ def cmd_compose():
         if pb is not None and pa is not None:
             rec["before"] = [[num(x, pt, all_a) for x in pb] for pt in spec["points"]]
             rec["aft"] = [[num(x, pt, all_a) for x in pa] for pt in spec["points"]]
-            if spec.get("convert_params"):
+            if i < int(spec.get("convert_params") or 0):
                 # the real consumer, when it runs on both
                 cp = []
                 for pt in spec["points"][:1]:
